@@ -73,6 +73,11 @@ def catalog():
         'trace': [n for n in handlers if fam[n] == 'trace' and n in ids],
         'undecoded': [(k, v) for k, v in sorted(table.items()) if v not in handlers],
     }
+    byname = {}
+    for k, v in sorted(table.items()):
+        byname.setdefault(v, []).append(k)
+    # distinct codes that the table gives the same name (pairing is by code, never by name)
+    _cat['same_name_codes'] = [ks for v, ks in sorted(byname.items()) if len(ks) >= 2]
     return _cat
 
 
@@ -84,7 +89,7 @@ def draw_len(rng, maxlen=184):
 
 def op_lookup(rng, length=None, maxlen=184):
     n = draw_len(rng, maxlen) if length is None else length
-    return {'k': 'lookup', 'path': rng.text(n), 'vnode': rng.randrange(1, 1 << 48)}
+    return {'k': 'lookup', 'path': rng.text(n), 'vnode': rng.pick([0, 0, 1]) if rng.chance(0.08) else rng.randrange(1, 1 << 48)}
 
 
 def op_gstr(rng, sid, length=None):
@@ -157,6 +162,41 @@ def op_imap(rng, uuid_hex, addr, shared=False):
     w = records.words_of(b + b'\x00' * 16)
     return {'k': 'one', 'name': 'DYLD_uuid_shared_cache_a' if shared else 'DYLD_uuid_map_a', 'q': 0,
             'a': [w[0], w[1], addr, rng.randrange(0, 1 << 32)]}
+
+
+def op_crossing(rng, ctx, name_a=None, name_b=None):
+    """START a, START b, END a, END b on one thread (crossing, not nested), from in-domain windows of two decoders."""
+    cat = catalog()
+    name_a = name_a or rng.pick(cat['mach'])
+    name_b = name_b or rng.pick(cat['bsd'])
+    ids = cat['ids']
+    sa, ea = domains.draw(rng, name_a)
+    sb, eb = domains.draw(rng, name_b)
+    return {'k': 'seq', 'ops': [{'k': 'raw', 'id': ids[name_a], 'q': 1, 'a': sa}, {'k': 'raw', 'id': ids[name_b], 'q': 1, 'a': sb},
+                                {'k': 'raw', 'id': ids[name_a], 'q': 2, 'a': ea}, {'k': 'raw', 'id': ids[name_b], 'q': 2, 'a': eb}]}
+
+
+def op_same_name_pair(rng):
+    """START of one code, END of ANOTHER code that the table gives the same name, then the real END."""
+    cat = catalog()
+    if not cat['same_name_codes']:
+        return {'k': 'seq', 'ops': []}
+    ks = rng.pick(cat['same_name_codes'])
+    a, b = rng.sample(ks, 2)
+    return {'k': 'seq', 'ops': [{'k': 'raw', 'id': a, 'q': 1, 'a': rng.words()}, {'k': 'raw', 'id': b, 'q': 2, 'a': rng.words()},
+                                {'k': 'raw', 'id': a, 'q': 2, 'a': rng.words()}]}
+
+
+def op_long_window(rng, name, n, tail_start=None):
+    """One START..END window of decoder `name` holding n same-thread single records (a long-running operation)."""
+    cat = catalog()
+    s, e = domains.draw(rng, name)
+    filler = op_single(rng, 'MACH_MKRUNNABLE')
+    inner = [dict(filler) for _ in range(n)]
+    return {'k': 'sys', 'name': name, 's': s, 'e': e, 'in': inner}
+
+
+LONG_SIZES = [1030, 2050, 4100, 8200, 16400, 33000]
 
 
 class Ctx:
@@ -365,6 +405,8 @@ def gen_logs(rng, n, tids=None, with_tai=False):
         return strings.index(s)
     events = []
     pool = [rng.ident(2, 8) for _ in range(3)]
+    if rng.chance(0.3):
+        pool[0] = rng.pick(['2048', '7', '007', '0', '12345'])       # an executable may be called like a number
     for i in range(n):
         ev = {'cm': sidx('msg %d %s' % (i, rng.ident())), 't': rng.pick(['Log', 'Activity', 'Signpost']),
               's': rng.randrange(0, 4096), 'tid': rng.pick(tids) if tids and rng.chance(0.6) else rng.pick([0, 0, 77, 4242]),
@@ -583,6 +625,8 @@ def gen_dump(rng, version=None, nthreads=None, mix=None, ops_hi=5, declare_all=T
     npids = rng.randint(1, max(1, nthreads))
     pids = [map_pid_base + i for i in range(npids)]
     names = [rng.ident(2, 10) for _ in pids]
+    if rng.chance(0.25):
+        names[0] = rng.pick(['2048', '7', '50001', str(map_pid_base + 1), '0'])     # a process named like a number (even like another pid)
     for i, th in enumerate(threads):
         if declare_all or rng.chance(0.7):
             j = rng.randrange(npids)
